@@ -46,11 +46,16 @@ func zzPathKey(name string, n int) string {
 	return string(b)
 }
 
-// zzKeys returns k clean paths of 1..maxLen bytes and, for each, the index of the first key equal to it (the solver
-// may make keys equal; the equalities are decided here once, the store would split on them anyway).
-func zzKeys(k, maxLen int) (keys []string, rep []int) {
+// zzKeys returns k clean paths — the first of 1..deepLen bytes (room for three components), the others of 1..maxLen
+// bytes — and, for each, the index of the first key equal to it (the solver may make keys equal; the equalities are
+// decided here once, the store would split on them anyway).
+func zzKeys(k, deepLen, maxLen int) (keys []string, rep []int) {
 	for i := 0; i < k; i++ {
-		keys = append(keys, zzPathKey("key"+string(rune('0'+i)), 1+rt.Choose("keylen", maxLen)))
+		l := maxLen
+		if i == 0 {
+			l = deepLen
+		}
+		keys = append(keys, zzPathKey("key"+string(rune('0'+i)), 1+rt.Choose("keylen", l)))
 		r := i
 		for j := 0; j < i; j++ {
 			if rep[j] == j && rt.EqString(keys[j], keys[i]) {
@@ -75,7 +80,7 @@ func ZZ_C49_Files() {
 	ctx := context.Background()
 	kv := memory.WithHashFn(zzHash)
 	w, o := zzNewStorage(kv, 2*time.Second), zzNewStorage(kv, 2*time.Second)
-	keys, rep := zzKeys(rt.Bound("keys"), rt.Bound("keylen"))
+	keys, rep := zzKeys(rt.Bound("keys"), rt.Bound("deeplen"), rt.Bound("keylen"))
 	model := make([]zzFile, len(keys))
 	n := rt.Bound("ops")
 	for i := 0; i < n; i++ {
@@ -139,7 +144,7 @@ func zzListScenario(emptyValues bool) (found []string, dir string, present []str
 	ctx := context.Background()
 	kv := memory.WithHashFn(zzHash)
 	w, o := zzNewStorage(kv, 2*time.Second), zzNewStorage(kv, 2*time.Second)
-	keys, rep := zzKeys(rt.Bound("keys"), rt.Bound("keylen"))
+	keys, rep := zzKeys(rt.Bound("keys"), rt.Bound("deeplen"), rt.Bound("keylen"))
 	if d := rt.Choose("dirlen", rt.Bound("dirlen")+1); d > 0 {
 		dir = zzPathKey("dir", d)
 	}
@@ -242,6 +247,13 @@ func zzCheckListing(found []string, dir string, present []string) {
 	}
 	if len(found) == 2 {
 		rt.Reach("two-children")
+	}
+	for _, k := range present {
+		if len(found) > 0 && len(k) >= len(zzDirSlash(dir))+5 && len(found[0]) == len(zzDirSlash(dir))+1 {
+			if zzIsChildOf(found[0], k, dir) {
+				rt.Reach("child-of-a-key-three-levels-down")
+			}
+		}
 	}
 	if len(found) == 0 && len(present) > 0 {
 		rt.Reach("files-elsewhere-only")
